@@ -47,7 +47,7 @@ enum Mode {
     Rate(f32),
 }
 
-fn kinds(cfg: &CfgD) -> Vec<Kind> {
+fn kinds(cfg: &CfgD, tier: Tier) -> Vec<Kind> {
     let m = |obs: Vec<Obs>, dims: Vec<(String, String)>| ValD::Metric { obs, unit: UnitD::Milli, dims, flag: FlagD::None };
     let f = frame_minimal();
     let valid = |vals: Vec<(String, ValD)>| build_entry(cfg, f, vals);
@@ -76,6 +76,11 @@ fn kinds(cfg: &CfgD) -> Vec<Kind> {
         vec![(s("M"), m(vec![Obs::U(5)], vec![(s("k"), s("v"))])), (s("G"), m(vec![Obs::U(1)], vec![]))]);
     let split_edims2 = build_entry(cfg, Frame { ts: TsD::Big, edims: EDimsD::Two, dim_strings_last: false, always_split: false },
         vec![(s("M"), m(vec![Obs::U(5)], vec![(s("k"), s("v"))]))]);
+    // the entry-level dimension E declared but not written / written as a metric
+    let mut edims_missing = edims.clone();
+    edims_missing.ops.retain(|o| !matches!(o, OpD::Value(n, ValD::Str(_)) if n == "E"));
+    let mut edims_metric = edims_missing.clone();
+    edims_metric.ops.push(OpD::Value(s("E"), m(vec![Obs::U(7)], vec![])));
     let mut edims_twice = edims.clone();
     edims_twice.ops.insert(0, OpD::Config(ConfD::EntryDims(vec![vec![s("E")]])));
     let unroutable = EntryD { ops: vec![OpD::Config(ConfD::Unroutable), OpD::Value(s("MetriqueValidationError"), ValD::Str(s("in-band error report")))] };
@@ -83,6 +88,10 @@ fn kinds(cfg: &CfgD) -> Vec<Kind> {
     unroutable_ts.ops.push(OpD::Timestamp(TS_BIG_NS));
     let nan_only = valid(vec![(s("M"), m(vec![Obs::F(f64::NAN)], vec![])), (s("N"), m(vec![Obs::U(1), Obs::F(f64::NAN)], vec![(s("k"), s("v"))]))]);
     let large = valid(vec![(s("Big"), ValD::Str("x".repeat(1_300_000))), (s("M"), m(vec![Obs::U(7), Obs::U(8)], vec![]))]);
+    // a metric whose text alone exceeds 1 MiB (the formatter's per-record buffers, unlike the
+    // string buffer that `large-1.3MB` grows, carry a constant prefix)
+    let huge_dist = valid(vec![(s("H"), m(huge_obs(), vec![])), (s("M"), m(vec![Obs::U(7)], vec![]))]);
+    let huge_split = valid(vec![(s("H"), m(huge_obs(), vec![(s("k"), s("v"))]))]);
     let err_val = valid(vec![(s("M"), ValD::Error(s("value error")))]);
     let dist = valid(vec![(s("M"), m(vec![Obs::U(7), Obs::F(2.5), Obs::R(9.0, 3)], vec![])), (s("S"), ValD::Str(s("q\"")))]);
     let k = |name, entry, fail_after| Kind { name, entry, fail_after, compare_bytes: true, mode: Mode::Configured };
@@ -113,6 +122,8 @@ fn kinds(cfg: &CfgD) -> Vec<Kind> {
         k("split-under-entry-dimensions", split_edims, None),
         k("split-under-two-entry-dimension-sets", split_edims2, None),
         k("defect-entry-dimensions-twice", edims_twice, None),
+        k("defect-entry-dimension-not-written", edims_missing, None),
+        k("defect-metric-under-entry-dimension-name", edims_metric, None),
         k("unroutable-error-entry", unroutable_ts, None),
         k("io-failure-at-0-entry-dimensions", edims.clone(), Some(0)),
         k("io-failure-mid-record-entry-dimensions", edims.clone(), Some(70)),
@@ -120,10 +131,14 @@ fn kinds(cfg: &CfgD) -> Vec<Kind> {
         k("io-failure-large", large.clone(), Some(1_100_000)),
         k("nan-only-metrics", nan_only, None),
         k("large-1.3MB", large.clone(), None),
+        k("huge-distribution-1.2MB", huge_dist, None),
         k("value-error", err_val, None),
         k("io-failure-at-0", scalar.clone(), Some(0)),
         k("io-failure-mid-record", dist, Some(60)),
     ];
+    if tier == Tier::Thorough {
+        v.push(k("huge-distribution-in-split-record", huge_split, None));
+    }
     v.extend(extra);
     v
 }
@@ -181,12 +196,14 @@ struct St {
 
 fn main() {
     let mut rep = Report::from_args("C14", "model_checking");
+    // a panic of the formatter inside a history is caught and judged; keep stderr readable
+    std::panic::set_hook(Box::new(|_| {}));
     let depth: u32 = rep.tier.pick(3, 4);
     let cfgs = c14_configs();
     let mut all_states = Vec::new();
     let mut nkinds = 0;
     for (ci, cfg) in cfgs.iter().enumerate() {
-        let ks = kinds(cfg);
+        let ks = kinds(cfg, rep.tier);
         nkinds = nkinds.max(ks.len());
         let pristine = cfg.build();
         // reference observation of each kind on a fresh formatter
@@ -211,7 +228,19 @@ fn main() {
             let mut r = Runner::from_emf(pristine.clone(), cfg.mult);
             st.sequences += 1;
             for (pos, &ki) in seq.iter().enumerate() {
-                let o = step(&mut r, &ks[ki]);
+                let o = match std::panic::catch_unwind(std::panic::AssertUnwindSafe(|| step(&mut r, &ks[ki]))) {
+                    Ok(o) => o,
+                    Err(_) => {
+                        // no kind panics on a fresh formatter (the reference observations above exist)
+                        let prefix: Vec<&str> = seq[..pos].iter().map(|&i| ks[i].name).collect();
+                        st.v.add(
+                            format!("history-dependent-panic:{}", ks[ki].name),
+                            format!("formatting {} after {:?} panics; a fresh formatter formats it", ks[ki].name, prefix),
+                            json!({"config": cfg.to_json(), "history": prefix, "entry_kind": ks[ki].name}),
+                        );
+                        break;
+                    }
+                };
                 st.formats += 1;
                 if pos + 1 == seq.len() {
                     st.outcomes.insert((ki, o.0.chars().take(12).collect()));
@@ -222,7 +251,7 @@ fn main() {
                         st.v.add(
                             format!("history-dependent-{what}:{}", ks[ki].name),
                             format!("formatting {} after {:?} gives different {what} than a fresh formatter", ks[ki].name, prefix),
-                            json!({"config": cfg.to_json(), "history": prefix, "entry_kind": ks[ki].name, "entry": if ks[ki].entry.ops.len() < 12 && ks[ki].name != "large-1.3MB" { ks[ki].entry.to_json() } else { json!("large") },
+                            json!({"config": cfg.to_json(), "history": prefix, "entry_kind": ks[ki].name, "entry": if ks[ki].entry.ops.len() < 12 && !ks[ki].name.starts_with("large") && !ks[ki].name.starts_with("huge") { ks[ki].entry.to_json() } else { json!("large") },
                                 "got": {"outcome": o.0, "lines": o.1.iter().map(|l| String::from_utf8_lossy(&l[..l.len().min(600)]).to_string()).collect::<Vec<_>>()},
                                 "fresh": {"outcome": fresh[ki].0.clone(), "lines": fresh[ki].1.iter().map(|l| String::from_utf8_lossy(&l[..l.len().min(600)]).to_string()).collect::<Vec<_>>()}}),
                         );
